@@ -36,6 +36,7 @@ class Opts:
         self.exits = True
         self.zero_div = False         # allow possibly-zero divisors
         self.quote_edge = False       # string literals that begin/end with two double quotes (listed finding)
+        self.bitops = True            # the non-short-circuit Bool operators && || ^^
         self.max_stmts = 14
         self.max_depth = 3
         self.use_all = True           # make sure every binding is used
@@ -212,7 +213,7 @@ class Gen:
                 return ("bool", rng.choice(["and", "or"]), self.expr(BOOL, scopes, depth - 1), self.expr(BOOL, scopes, depth - 1))
             if k < 0.8:
                 return ("not", self.expr(BOOL, scopes, depth - 1))
-            if k < 0.87:
+            if k < 0.87 and self.o.bitops:
                 # the non-short-circuit operators on Bool
                 return ("bin", rng.choice(["&&", "||", "^^"]), self.expr(BOOL, scopes, depth - 1), self.expr(BOOL, scopes, depth - 1), BOOL)
             if k < 0.91:
